@@ -14,6 +14,7 @@
 #include <functional>
 #include <iostream>
 #include <memory>
+#include <stdexcept>
 #include <sstream>
 #include <string>
 #include <unordered_set>
@@ -34,9 +35,18 @@ struct test_channel
         read_cb = cb;
         ++reads_armed;
     }
-    void write(bytes d) { out.append(d.begin(), d.end()); }
-    bool is_alive() const { return true; }
-    void close() {}
+    long fault_in = -1;   // >= 0: the write() call after that many more calls throws, once
+    void write(bytes d)
+    {
+        if (fault_in == 0) { fault_in = -1; throw std::runtime_error("write failed"); }
+        if (fault_in > 0) --fault_in;
+        out.append(d.begin(), d.end());
+    }
+    // liveness as a real channel has it: close() ends it, `rv` (a re-attached session) brings it back.  The library
+    // promises nothing different for a channel that is not alive: it writes regardless.
+    bool alive = true;
+    bool is_alive() const { return alive; }
+    void close() { alive = false; }
 
     void deliver(bytes d)
     {
@@ -217,57 +227,84 @@ struct peek_state
 };
 
 // ---------------------------------------------------------------- T: terminal scripts
-// returns false when the op word is unknown
-bool apply_terminal_op(std::string const &op, reader &r, terminal &t)
+// Where an operation goes: to one terminal (kinds T, S: the object is a temporary, as in `term << move_cursor(...)`), or
+// to several terminals that are handed THE SAME object one after the other, the last of them a copy made after the
+// object was first used (kind M: a manipulator kept in a variable, a constant, a member).
+struct to_one
 {
-    if (op == "we") t << read_element(r);
+    terminal &t;
+    template <class M> void operator()(M &&m) const { t << std::forward<M>(m); }
+    template <class F> void each(F const &f) const { f(t); }
+};
+
+struct to_many
+{
+    std::vector<terminal *> ts;
+    template <class M> void operator()(M &&m) const
+    {
+        std::remove_cvref_t<M> const &shared = m;
+        for (std::size_t k = 0; k < ts.size(); ++k) {
+            if (k >= 2) { auto copy = shared; *ts[k] << copy; }
+            else *ts[k] << shared;
+        }
+    }
+    template <class F> void each(F const &f) const { for (auto *t : ts) f(*t); }
+};
+
+// returns false when the op word is unknown
+template <class Sink>
+bool apply_terminal_op_to(std::string const &op, reader &r, Sink const &out)
+{
+    if (op == "we") out(read_element(r));
     else if (op == "ws") {
         long n = r.num();
         terminalpp::string s;
         for (long i = 0; i < n; ++i) s += read_element(r);
-        t << s;
+        out(s);
     }
-    else if (op == "re") t << write_element(read_element(r));
-    else if (op == "da") t << write_optional_default_attribute();
-    else if (op == "mv") { long x = r.num(), y = r.num(); t << move_cursor({(coordinate_type)x, (coordinate_type)y}); }
-    else if (op == "hc") t << hide_cursor();
-    else if (op == "sc") t << show_cursor();
-    else if (op == "sv") t << save_cursor_position();
-    else if (op == "rs") t << restore_cursor_position();
+    else if (op == "re") out(write_element(read_element(r)));
+    else if (op == "da") out(write_optional_default_attribute());
+    else if (op == "mv") { long x = r.num(), y = r.num(); out(move_cursor({(coordinate_type)x, (coordinate_type)y})); }
+    else if (op == "hc") out(hide_cursor());
+    else if (op == "sc") out(show_cursor());
+    else if (op == "sv") out(save_cursor_position());
+    else if (op == "rs") out(restore_cursor_position());
     else if (op == "er") {
         switch (r.num()) {
-            case 0: t << erase_display(); break;
-            case 1: t << erase_display_above(); break;
-            case 2: t << erase_display_below(); break;
-            case 3: t << erase_line(); break;
-            case 4: t << erase_line_left(); break;
-            default: t << erase_line_right(); break;
+            case 0: out(erase_display()); break;
+            case 1: out(erase_display_above()); break;
+            case 2: out(erase_display_below()); break;
+            case 3: out(erase_line()); break;
+            case 4: out(erase_line_left()); break;
+            default: out(erase_line_right()); break;
         }
     }
-    else if (op == "me") t << enable_mouse();
-    else if (op == "md") t << disable_mouse();
+    else if (op == "me") out(enable_mouse());
+    else if (op == "md") out(disable_mouse());
     else if (op == "ti") {
         long n = r.num();
         std::string title;
         for (long i = 0; i < n; ++i) title.push_back(static_cast<char>(r.num()));
-        t << set_window_title(title);
+        out(set_window_title(title));
     }
-    else if (op == "nb") t << use_normal_screen_buffer();
-    else if (op == "ab") t << use_alternate_screen_buffer();
+    else if (op == "nb") out(use_normal_screen_buffer());
+    else if (op == "ab") out(use_alternate_screen_buffer());
     else if (op == "wr") {
         long n = r.num();
         byte_storage data;
         for (long k = 0; k < n; ++k) data.push_back(static_cast<byte>(r.num()));
-        t.write(bytes{data.data(), data.size()});
+        out.each([&](terminal &t) { t.write(bytes{data.data(), data.size()}); });
     }
-    else if (op == "sz") { long w = r.num(), h = r.num(); t.set_size({(coordinate_type)w, (coordinate_type)h}); }
+    else if (op == "sz") { long w = r.num(), h = r.num(); out.each([&](terminal &t) { t.set_size({(coordinate_type)w, (coordinate_type)h}); }); }
     // the rest of the terminal's public interface: none of these writes anything, and writing must go on working after them
-    else if (op == "cl") t.close();
-    else if (op == "al") { volatile bool alive = t.is_alive(); (void)alive; }
-    else if (op == "ar") t.async_read([](tokens) {});
+    else if (op == "cl") out.each([](terminal &t) { t.close(); });
+    else if (op == "al") out.each([](terminal &t) { volatile bool alive = t.is_alive(); (void)alive; });
+    else if (op == "ar") out.each([](terminal &t) { t.async_read([](tokens) {}); });
     else return false;
     return true;
 }
+
+bool apply_terminal_op(std::string const &op, reader &r, terminal &t) { return apply_terminal_op_to(op, r, to_one{t}); }
 
 std::vector<std::string> split(std::string const &s, char sep)
 {
@@ -281,38 +318,110 @@ std::vector<std::string> split(std::string const &s, char sep)
     return parts;
 }
 
+// one terminal script, stepped operation by operation (the executor runs it to the end; harness/interleave.cpp takes one
+// step at a time, between the steps of other objects)
+struct terminal_script
+{
+    test_channel ch;
+    std::unique_ptr<terminal> t;
+    std::string res;
+    bool reading = false;
+    std::function<void(tokens)> reader_cb;
+
+    explicit terminal_script(long bits)
+    {
+        t = std::make_unique<terminal>(ch, read_behaviour(bits));
+        reader_cb = [this](tokens) { t->async_read(reader_cb); };
+    }
+    terminal_script(terminal_script const &) = delete;
+
+    void op(std::string const &part)
+    {
+        reader r(part);
+        std::string op = r.word();
+        if (op.empty()) return;
+        ch.out.clear();
+        // `fw n`: the channel's write() fails (throws) once, on the n-th call from now - a connection reset in the middle
+        // of an operation.  What the failing terminal itself does then is not specified here; every OTHER object must be
+        // unaffected (C12).  No answer segment.
+        if (op == "fw") { ch.fault_in = r.num(); return; }
+        bool threw = false;
+        try {
+            if (op == "in") {
+                // bytes arrive on the INPUT side of the same terminal between two output operations (a client is reading
+                // and re-arms from its callback); whatever they decode to, the output side must be unaffected
+                long n = r.num();
+                byte_storage data;
+                for (long k = 0; k < n; ++k) data.push_back(static_cast<byte>(r.num()));
+                if (!reading) { reading = true; t->async_read(reader_cb); }
+                ch.deliver(bytes{data.data(), data.size()});
+            }
+            else if (op == "rv") ch.alive = true;
+            else if (!apply_terminal_op(op, r, *t)) { res += "?op "; return; }
+        }
+        catch (std::exception const &) { threw = true; }
+        std::string st;
+        *t << peek_state{&st};
+        if (!res.empty()) res += " ; ";
+        res += hex(ch.out) + (threw ? " !throw" : "") + " / " + st;
+    }
+    std::string result() const { return res.empty() ? "-" : res; }
+};
+
 std::string run_terminal(std::string const &rest)
 {
     auto parts = split(rest, ';');
     reader head(parts[0]);
-    long bits = head.num();
-    test_channel ch;
-    terminal t{ch, read_behaviour(bits)};
-    std::string res;
-    bool reading = false;
-    std::function<void(tokens)> reader_cb;
-    reader_cb = [&](tokens) { t.async_read(reader_cb); };
+    terminal_script ts(head.num());
+    for (std::size_t i = 1; i < parts.size(); ++i) ts.op(parts[i]);
+    return ts.result();
+}
+
+// ---------------------------------------------------------------- M: one manipulator object, several terminals
+// `M <bits> <bits> [<bits>] ; op ; op …`: every operation constructs ONE object and streams that same object to each
+// terminal in turn (the third terminal gets a copy made after the first two uses).  The answer is each terminal's
+// T-style answer joined by " || ", then " ## ", then the answers of the same terminals each run ALONE with fresh objects.
+std::string run_multi(std::string const &rest)
+{
+    auto parts = split(rest, ';');
+    std::vector<long> bits;
+    {
+        reader head(parts[0]);
+        for (;;) { std::string w = head.word(); if (w.empty()) break; bits.push_back(std::stol(w)); }
+    }
+    if (bits.empty()) return "?head";
+    std::size_t const n = bits.size();
+    std::vector<std::unique_ptr<test_channel>> chs;
+    std::vector<std::unique_ptr<terminal>> ts;
+    std::vector<std::string> res(n);
+    to_many sink;
+    for (std::size_t k = 0; k < n; ++k) {
+        chs.push_back(std::make_unique<test_channel>());
+        ts.push_back(std::make_unique<terminal>(*chs[k], read_behaviour(bits[k])));
+        sink.ts.push_back(ts[k].get());
+    }
     for (std::size_t i = 1; i < parts.size(); ++i) {
         reader r(parts[i]);
         std::string op = r.word();
         if (op.empty()) continue;
-        ch.out.clear();
-        if (op == "in") {
-            // bytes arrive on the INPUT side of the same terminal between two output operations (a client is reading
-            // and re-arms from its callback); whatever they decode to, the output side must be unaffected
-            long n = r.num();
-            byte_storage data;
-            for (long k = 0; k < n; ++k) data.push_back(static_cast<byte>(r.num()));
-            if (!reading) { reading = true; t.async_read(reader_cb); }
-            ch.deliver(bytes{data.data(), data.size()});
+        for (auto &c : chs) c->out.clear();
+        if (!apply_terminal_op_to(op, r, sink)) { for (auto &x : res) x += "?op "; continue; }
+        for (std::size_t k = 0; k < n; ++k) {
+            std::string st;
+            *ts[k] << peek_state{&st};
+            if (!res[k].empty()) res[k] += " ; ";
+            res[k] += hex(chs[k]->out) + " / " + st;
         }
-        else if (!apply_terminal_op(op, r, t)) { res += "?op "; continue; }
-        std::string st;
-        t << peek_state{&st};
-        if (!res.empty()) res += " ; ";
-        res += hex(ch.out) + " / " + st;
     }
-    return res.empty() ? "-" : res;
+    std::string shared, alone;
+    for (std::size_t k = 0; k < n; ++k) {
+        if (k) { shared += " || "; alone += " || "; }
+        shared += res[k].empty() ? std::string("-") : res[k];
+        std::string line = std::to_string(bits[k]);
+        for (std::size_t i = 1; i < parts.size(); ++i) line += ";" + parts[i];
+        alone += run_terminal(line);
+    }
+    return shared + " ## " + alone;
 }
 
 // ---------------------------------------------------------------- D N H X Y: tables and palette
@@ -375,6 +484,7 @@ int main()
         reader r(rest);
         switch (kind) {
             case 'T': ans = run_terminal(rest); break;
+            case 'M': ans = run_multi(rest); break;
             case 'D': ans = run_lookup(r); break;
             case 'N': ans = run_encode_cs(r); break;
             case 'H': ans = run_high(r); break;
